@@ -32,7 +32,7 @@ QUICK = [("EOF", True, False, True), ("POP", True, False, True), ("MCA", True, F
          ("POP", False, True, False)]       # deferred sorting: a snapshot taken before compute() holds unsorted modes
 THOROUGH = QUICK + [("CPCCA", True, False, True), ("SparsePCA", True, False, True), ("HilbertEOF", True, False, True), ("OPA", True, False, True),
                     ("ExtendedEOF", True, False, True), ("POP", False, True, False)]
-DEVS = [("CapSorted", "DeserializeDropsSorted")]
+DEVS = [("CapSorted", "DeserializeDropsSorted"), ("CapSingle", "RotDeserializeDropsSorted")]
 
 
 def concrete(v):
@@ -230,7 +230,9 @@ def main():
     cases = class_cases(rep.tier)
     f2 = scenrun.evaluate(rep, cases, eval_class, procs=a.procs, chunksize=2)
     scenrun.report(rep, f1 + f2, TAGS)
-    lifecycle_part(rep, a, TAGS, QUICK, THOROUGH, DEVS, quick_paths=12, trace_worlds=[("POP", True, False, True)], trace_num=6)
+    # the rotator's own serialised trees are part of the explored behaviour here (RotSerialize / RotDeserialize)
+    lifecycle_part(rep, a, TAGS, QUICK, THOROUGH, DEVS, quick_paths=12, trace_worlds=[("POP", True, False, True)], trace_num=6,
+                   tlc_kw=dict(rotsnaps=True))
     rep.exhaustive = True
     rep.extra["rule"] = "every abstract attribute value of XCodec, every (class, structure, rotator, route, moment) case, and lifecycle paths with serialize/deserialize; non-trivial = string that looks like a literal, or non-default route"
     rep.extra["distinct_nontrivial"] = len(vals) + len(cases)
